@@ -72,7 +72,8 @@ def carrier_api():
         m('DeleteThing', 'delete', out='google.protobuf.Empty', sigs=['name']),
         m('UpdateThing', 'update', sigs=['inner.name,tags', 'labels,kind,class,flag,opt_request_id']),
         m('CreateThing', 'create', sigs=['name']),
-        m('TouchThing', 'touch', sigs=['name,tags,count', 'name,count', 'vals']),
+        # (an EMPTY method_signature - 'callable without flattened arguments' - stands before the others and ends nothing)
+        m('TouchThing', 'touch', sigs=['', 'name,tags,count', 'name,count', 'vals']),
         m('PlainThing', 'plain'),
         # its reply is the API's OWN message named Empty (with fields): not google.protobuf.Empty, hence not a void method
         m('NullThing', 'null', out='Empty'),
